@@ -505,6 +505,75 @@ func VH_C04_miter_Q() {
 	vAssert("C04.miter.ends_on_offset_lines", vhNearPt(rhs.Pos(), pivot.Add(n1)) && vhNearPt(lhs.Pos(), pivot.Sub(n1)))
 }
 
+// C04: miter-clip (MiterJoiner without gap joiner): where the miter is longer than the limit it is cut
+// off by a line across the corner.  Whatever the exact position of that line, the two new corners
+// lie on the outer stroke edges of the two segments (the edges run straight on up to the cut), are
+// mirror images of each other about the bisector (equal distance from the vertex), lie between the
+// half width and the miter tip from the vertex, and both sides end on the offset points of the next
+// segment.  Normals/half width concrete (left and right turns of many angles), pivot from two
+// points, limit symbolic.
+func VH_C04_miterclip_Q() {
+	i := vChoose(0, len(vhC04Units)-1)
+	j := vChoose(0, len(vhC04Units)-1)
+	u0, u1 := vhC04Units[i], vhC04Units[j]
+	if i == j || (u0.X == -u1.X && u0.Y == -u1.Y) {
+		return
+	}
+	hw := []float64{0.5, 2}[vChoose(0, 1)]
+	n0, n1 := u0.Mul(hw), u1.Mul(hw)
+	pivot := []Point{{0, 0}, {3, -2}}[vChoose(0, 1)]
+	limit := vNondetF64()
+	vAssume(1 <= limit && limit <= 20)
+	jr := MiterJoiner{Limit: limit, GapJoiner: nil}
+	mk := func(n Point) *Path {
+		s := pivot.Add(n)
+		a := s.Add(n.Mul(2))
+		p := &Path{}
+		p.d = append(p.d, MoveToCmd, a.X, a.Y, MoveToCmd, LineToCmd, s.X, s.Y, LineToCmd)
+		return p
+	}
+	rhs, lhs := mk(n0), mk(n0.Neg())
+	nr, nl := len(rhs.d), len(lhs.d)
+	jr.Join(rhs, lhs, hw, pivot, n0, n1, math.NaN(), math.NaN())
+	vAssert("C04.miterclip.ends_on_offset_lines", vhNearPt(rhs.Pos(), pivot.Add(n1)) && vhNearPt(lhs.Pos(), pivot.Sub(n1)))
+	// the outer side is the left one for a right turn
+	cw := 0.0 <= n0.Rot90CW().Dot(n1)
+	outer, from := rhs, nr
+	o0, o1 := pivot.Add(n0), pivot.Add(n1)
+	inner, ifrom := lhs, nl
+	if cw {
+		outer, from = lhs, nl
+		o0, o1 = pivot.Sub(n0), pivot.Sub(n1)
+		inner, ifrom = rhs, nr
+	}
+	ipts, okI := vhC04Tail(inner, ifrom)
+	vAssert("C04.miterclip.inner_side_one_line", okI && len(ipts) == 1)
+	pts, ok := vhC04Tail(outer, from)
+	vAssert("C04.miterclip.outer_side_lines", ok && (len(pts) == 2 || len(pts) == 3))
+	if !ok || (len(pts) != 2 && len(pts) != 3) {
+		return
+	}
+	// cos of half the angle between the normals, half miter length
+	cs := (u0.X*u1.X + u0.Y*u1.Y + 1) / 2 // cos^2(theta) = (1 + cos(2 theta)) / 2
+	tip2 := hw * hw / cs                  // squared distance of the miter tip from the vertex
+	if len(pts) == 2 {
+		// unclipped: the tip, at the intersection of both outer edges
+		q := pts[0]
+		onE0 := math.Abs((q.X-o0.X)*n0.X+(q.Y-o0.Y)*n0.Y) <= 1e-9
+		onE1 := math.Abs((q.X-o1.X)*n1.X+(q.Y-o1.Y)*n1.Y) <= 1e-9
+		vAssert("C04.miterclip.unclipped_tip_on_both_edges", onE0 && onE1)
+		return
+	}
+	m0, m1 := pts[0], pts[1]
+	onE0 := math.Abs((m0.X-o0.X)*n0.X+(m0.Y-o0.Y)*n0.Y) <= 1e-9
+	onE1 := math.Abs((m1.X-o1.X)*n1.X+(m1.Y-o1.Y)*n1.Y) <= 1e-9
+	vAssert("C04.miterclip.corners_on_outer_edges", onE0 && onE1)
+	d0 := (m0.X-pivot.X)*(m0.X-pivot.X) + (m0.Y-pivot.Y)*(m0.Y-pivot.Y)
+	d1 := (m1.X-pivot.X)*(m1.X-pivot.X) + (m1.Y-pivot.Y)*(m1.Y-pivot.Y)
+	vAssert("C04.miterclip.corners_symmetric", math.Abs(d0-d1) <= 1e-9*(1+d0))
+	vAssert("C04.miterclip.corners_between_half_width_and_tip", hw*hw-1e-9 <= d0 && d0 <= tip2*(1+1e-9))
+}
+
 // C04: closed subpaths whose last *curve* already ends at the start point (zero-length Close
 // record) are joined, not capped, and both offset sides come out closed.  Concrete shapes (a lens
 // of two quadratics, a drop of a cubic and a line, a lens after another subpath), half width from
